@@ -539,6 +539,10 @@ def gen_history(rnd, ir, dname, openargs, recs, hdr, sizes, length=None, toggles
         setbufs=[[k, max(hdr_bytes, buf + rnd.randint(-3, 5))] for k in sorted(rnd.sample(range(0, length), rnd.choice([0, 0, 1, 2])))] if setbufs else [],
         openargs=openargs)
     p['toggles'] = [list(t) for t in p['toggles']]
+    if rnd.random() < 0.3:
+        # clock values that do not fit 32 bits (or are about to wrap 64): the first read jumps far
+        big = rnd.choice([2 ** 32 - 3, 2 ** 32 + 7, 5 * 10 ** 9, 2 ** 40 + 1, 2 ** 63, 2 ** 64 - 50])
+        p['incs'] = [big] + p['incs'][1:]
     return {'buf': buf, 'plat': p, 'calls': calls}
 
 
